@@ -17,7 +17,7 @@ RULE = ("split_sync: all 65536 int16 words (exhaustive) in natural, shuffled, co
         "step amplitudes and analog thresholding. Non-trivial: a train with >= 3 events on >= 2 lines; distinct = distinct "
         "(layout | file kind, line subset, slice, dtype) signature")
 ASSUMPTIONS = ["one digital sync word per sample (as in every fixture); 0/1 trains are given as signed or floating arrays"]
-REQUIRED = {"growing_file_reopens": 10, "growing_file_events_after_first_look": 50, "words_checked": 65536, "read_sync_checked": 10, "fronts_checked": 100, "fronts_2d_checked": 100, "analog_on_threshold": 20, "strided_sync_checked": 20, "nidq_partial_checked": 8, "analog_lines_checked": 4, "sync_routes_checked": 30, "lf_band_sync_files": 3, "headers_rewritten_in_place": 2, "sync_files_with_stale_header": 5, "analog_long_windows": 20}
+REQUIRED = {"growing_file_first_looks_mid_frame": 4, "growing_file_reopens": 10, "growing_file_events_after_first_look": 50, "words_checked": 65536, "read_sync_checked": 10, "fronts_checked": 100, "fronts_2d_checked": 100, "analog_on_threshold": 20, "strided_sync_checked": 20, "nidq_partial_checked": 8, "analog_lines_checked": 4, "sync_routes_checked": 30, "lf_band_sync_files": 3, "headers_rewritten_in_place": 2, "sync_files_with_stale_header": 5, "analog_long_windows": 20}
 CASE_TIMEOUT = 120.0
 EXHAUSTIVE = "split_sync over all 65536 words x 16 bits"
 
@@ -145,6 +145,9 @@ def run_case(case):
         # a quarter of the headers were last written while acquisition was still running (fewer samples announced than the file holds); the reader is then
         # opened with or without the request to keep quiet about it - one sync row per sample of the FILE either way
         claim = max(1, ns - int(rng.integers(1, ns // 2))) if rng.random() < 0.25 else None
+        midframe = case["seed"] % 16 in (8, 12)        # ordinals whose growing-file step looks at the file in the middle of a frame: always flat, consistent header
+        if midframe:
+            claim = None
         rkw = {"ignore_warnings": bool(rng.integers(0, 2))} if claim is not None else {}
         if claim is not None:
             res.count("sync_files_with_stale_header")
@@ -162,7 +165,7 @@ def run_case(case):
         word = np.where(word >= 32768, word - 65536, word).astype(np.int16)
         rec.raw[:, -1] = word
         b = G.write(rec, scratch())
-        use_c = rng.random() < 0.3
+        use_c = rng.random() < 0.3 and not midframe
         try:
             sr = spikeglx.Reader(b, sort=bool(rng.integers(0, 2)), **rkw)
             if use_c:
@@ -237,19 +240,24 @@ def run_case(case):
                 dg.mkdir(exist_ok=True)
                 bg = dg / b.name
                 by = rec.raw.tobytes()
-                bg.write_bytes(by[: ns1 * rec.nc * 2])
                 online = case["seed"] % 4 == 0
+                # (round 22) the first look happens while the writer is in the middle of a frame: none, a few, just over half or almost all of the next frame's
+                # bytes are on disk - whole frames are what counts
+                frame_b = rec.nc * 2
+                trail = [0, 6, frame_b // 2 + 2, frame_b - 2][(case["seed"] // 4) % 4] if online else 0
+                bg.write_bytes(by[: ns1 * frame_b + trail])
+                res.count("growing_file_first_looks_mid_frame", int(trail > frame_b // 2))
                 mtext = rec.meta_text
                 if online:      # header of an acquisition in progress: no size, no duration yet
                     mtext = "".join(ln + "\n" for ln in mtext.splitlines() if not ln.startswith(("fileTimeSecs", "fileSizeBytes", "fileSHA1")))
                 bg.with_suffix(".meta").write_text(mtext)
                 RG = spikeglx.OnlineReader if online else spikeglx.Reader
-                lab = f"{kind} {RG.__name__} on a growing file ({ns1} -> {ns} samples)"
+                lab = f"{kind} {RG.__name__} on a growing file ({ns1} samples + {trail} B -> {ns} samples)"
                 sg = RG(bg, sort=bool(rng.integers(0, 2)))
                 s1 = sg.read_sync(slice(0, ns1))
                 res.check(s1.shape == (ns1, 16) and np.array_equal(s1, T[:ns1]), "read_sync:growing-file:first-look", f"{lab}: first look: {s1.shape}")
                 with open(bg, "ab") as fo:
-                    fo.write(by[ns1 * rec.nc * 2:])
+                    fo.write(by[ns1 * frame_b + trail:])
                 sg.close()
                 sg.open()
                 for sl in (slice(None), slice(0, ns), slice(ns1 - 3, ns)):
